@@ -630,6 +630,35 @@ func init() {
 		}
 	}
 
+	// common.Hash rendering and encoding/hex decoding (string algebra: "0x" ++ hexdigits(h))
+	for _, hn := range []string{"String", "Hex"} {
+		libModels["(github.com/ethereum/go-ethereum/common.Hash)."+hn] = func(c *libCall) (Val, bool) {
+			h := c.arg(0)
+			c.st.Assume(Eq(App(SInt, "blen", h), IntLit(32)))
+			r := App(SBytes, "hashstr", h)
+			c.fr.ex.Lits.ID("0x")
+			return WithGo(r, types.Typ[types.String]), true
+		}
+	}
+	libModels["encoding/hex.DecodeString"] = func(c *libCall) (Val, bool) {
+		// succeeds exactly on strings that are hex digits (no "0x" prefix); yields the encoded bytes
+		s0 := c.arg(0)
+		ok := App(SBool, "is_hexdigits", s0)
+		res := c.st.FreshOf("hexdec", c.sig.Results().At(0).Type())
+		errv := c.st.FreshOf("hexdec_err", c.sig.Results().At(1).Type())
+		c.st.Assume(Eq(ok, Eq(errv, T{S: "inil", Sort: SIface})))
+		c.st.Assume(Implies(ok, And(Eq(res, App(SBytes, "kf_1", s0)), Not(Eq(res, bnilT)))))
+		c.fr.ex.Assumed["string algebra: hex.DecodeString succeeds exactly on pure hex-digit strings (no 0x prefix)"] = true
+		return &TupleVal{Elems: []Val{res, errv}}, true
+	}
+	libModels["strings.TrimPrefix"] = func(c *libCall) (Val, bool) {
+		s0, p := c.arg(0), c.arg(1)
+		has := And(mk(SBool, "((_ is cat) %s)", s0.S), Eq(App(SBytes, "cat_a", s0), p))
+		r := Ite(has, App(SBytes, "cat_b", s0), s0)
+		c.fr.ex.Assumed["string algebra: strings.TrimPrefix strips a prefix only from strings built as prefix ++ rest"] = true
+		return WithGo(c.st.Name("trimmed", r), types.Typ[types.String]), true
+	}
+
 	// hexutil encoders as (injective) key-family constructors
 	libModels["github.com/ethereum/go-ethereum/common/hexutil.EncodeUint64"] = func(c *libCall) (Val, bool) {
 		r := App(SBytes, "hexu64", c.arg(0))
